@@ -299,6 +299,14 @@ func c09NilReturnsPass(g *ssa.Function, ins []ssa.Instruction) bool {
 		if ErrNilStatus(a.Val, 0) == NonNil {
 			continue
 		}
+		// `if err != nil { return err }`: the value is non-nil at this return
+		if _, isZero := a.Val.(zeroMarker); !isZero {
+			if _, isConst := a.Val.(*ssa.Const); !isConst {
+				if _, nonNil, _ := NilTests(g, Aliases(a.Val)); len(nonNil) > 0 && MustPass(a.Ret, newCut().Edges(nonNil...)) {
+					continue
+				}
+			}
+		}
 		if !AtomMustPass(a, ct) {
 			return false
 		}
@@ -331,6 +339,27 @@ func c09FieldBase(x ssa.Value, field string) ssa.Value {
 		}
 	}
 	return nil
+}
+
+// c09SameFieldLoad: a and b are two loads of the same field of the same object
+// (`x.F` read twice).
+func c09SameFieldLoad(a, b ssa.Value) bool {
+	la, ok1 := a.(*ssa.UnOp)
+	lb, ok2 := b.(*ssa.UnOp)
+	if !ok1 || !ok2 || la.Op != token.MUL || lb.Op != token.MUL {
+		return false
+	}
+	fa, ok1 := la.X.(*ssa.FieldAddr)
+	fb, ok2 := lb.X.(*ssa.FieldAddr)
+	return ok1 && ok2 && fa.Field == fb.Field && c09SameKey(fa.X, fb.X)
+}
+
+// c09CellOrValue: for a load of a single-store struct cell the stored value, else v.
+func c09CellOrValue(v ssa.Value) ssa.Value {
+	if src := c09CellSource(v); src != nil {
+		return src
+	}
+	return v
 }
 
 // c09PureAccessors: methods whose result depends only on the receiver value
